@@ -341,3 +341,68 @@ LEVEL_TEXT = ("Deductive for the two checks' trigger conditions (loop invariants
               "the path-prefix relation and the tree walk of the recorder are covered by exhaustive bounded stand-ins, hence level other.")
 LEVEL_NOTE = "Trusted: CheckContext.find_* (recorder walk checked by stand-in), message formatting helpers, pyvc semantics (E9)."
 TECHNIQUE = "contract-based deductive verification: AST->z3 VC generation with loop invariants on the real checks (pyvc); exhaustive small-scope enumeration for _is_prefix_operation"
+
+
+# ------------------------------------------------------------------------------------------------- CheckContext: the checks read the history of THIS scenario, asked about THIS case
+# (the tree walks themselves - ScenarioRecorder.find_parent / find_related / find_response - have their own stand-in; here: the question is passed on unchanged and an absent
+#  recorder answers "nothing", never an exception)
+CCX = "schemathesis.checks:CheckContext."
+
+
+def _recorder_answer(method):
+    def call(it, obj, a, k):
+        it.ghost["asked"] = it.ghost.get("asked", []) + [(method, dict(k), tuple(a))]
+        if method == "find_related":
+            from pyvc.values import VGen
+
+            n = it.path.choose([(0, True), (1, True), (2, True)], "related")
+            items = [fresh_opaque(it, "CaseRef") for _ in range(n)]
+            it.ghost["answer"] = items
+            return VGen(list(items))
+        if method in ("record_case", "record_response"):
+            it.ghost["answer"] = None
+            return None
+        ans = it.path.choose([(None, True), (fresh_opaque(it, "CaseRef" if method == "find_parent" else "ResponseRef"), True)], "answer")
+        it.ghost["answer"] = ans
+        return ans
+
+    return call
+
+
+R.nominal_methods["spec:ScenarioHistory"] = {m: _recorder_answer(m) for m in ("find_parent", "find_related", "find_response", "record_case", "record_response")}
+_CtxWithHistory = lambda: Obj(CCX.rstrip("."), recorder=OneOf(NoneT, Obj("spec:ScenarioHistory")))
+for _m, _result in (("find_parent", "result is ghost('answer')"), ("find_response", "result is ghost('answer')"),
+                    ("find_related", "length(result) == length(ghost('answer')) and all(result[i] is ghost('answer')[i] for i in range(length(result)))")):
+    R.contract(
+        CCX + _m,
+        variant="delegation",
+        prop="C18",
+        args={"self": _CtxWithHistory(), "case_id": Opq("CaseId")},
+        ghost={"asked": [], "answer": None},
+        raises=[],
+        ensures={
+            "the_history_is_asked_about_this_case": "implies(self.recorder is not None, ghost('asked') == [('" + _m + "', {'case_id': case_id}, ())] and " + _result + ")",
+            "without_a_history_nothing_is_found": "implies(self.recorder is None, length(ghost('asked')) == 0 and " + ("length(result) == 0" if _m == "find_related" else "result is None") + ")",
+        },
+        replayable=False,
+    )
+R.contract(
+    CCX + "record_case",
+    variant="delegation",
+    prop="C18",
+    args={"self": _CtxWithHistory(), "parent_id": Opq("CaseId"), "case": Opq("CaseRef")},
+    ghost={"asked": [], "answer": None},
+    raises=[],
+    ensures={"an_extra_request_of_a_check_is_recorded_under_its_parent": "implies(self.recorder is not None, ghost('asked') == [('record_case', {'parent_id': parent_id, 'transition': None, 'case': case}, ())])"},
+    replayable=False,
+)
+R.contract(
+    CCX + "record_response",
+    variant="delegation",
+    prop="C18",
+    args={"self": _CtxWithHistory(), "case_id": Opq("CaseId"), "response": Opq("ResponseRef")},
+    ghost={"asked": [], "answer": None},
+    raises=[],
+    ensures={"the_response_is_recorded_for_its_case": "implies(self.recorder is not None, ghost('asked') == [('record_response', {'case_id': case_id, 'response': response}, ())])"},
+    replayable=False,
+)
